@@ -38,7 +38,7 @@ HX = os.path.join(HB, "hx")
 NPROC = min(16, os.cpu_count() or 4)
 BAD = "( x42414443415345 )"
 NOORACLE = ("( i-2 )", "( i30 i-2 )")
-MODEL_FREE = {"life", "tls", "tlsraw", "stream", "sockcopy", "fsl", "copierbig", "srvd"}
+MODEL_FREE = {"life", "tls", "tlsraw", "stream", "sockcopy", "fsl", "copierbig", "srvd", "sockbig"}
 # families that run over real loopback sockets under real timing: a failure or divergence counts only if it reproduces
 REAL_TIMING = MODEL_FREE | {"socknet", "proxy"}
 CRASH = "( x4352415348 )"
